@@ -28,7 +28,7 @@ func TestC05(t *testing.T) {
 		"Non-trivial: row that the table rejects, or an accepted row reached over a sibling link.")
 	defer rec.Flush(t)
 	rec.Assume("a first-hop packet arriving over a sibling link is not covered by the statement and not asserted", "MAC validity is independent of the address header (addresses are not MAC inputs)")
-	rec.Require("outside_src_local_rejected", "outside_deliver", "outside_last_hop_dst_other_rejected", "outside_transit_dst_local_rejected", "inside_first_hop_src_other_rejected",
+	rec.Require("first_hop_over_sibling_link_rejected", "inside_transit_without_ingress_interface_rejected", "outside_src_local_rejected", "outside_deliver", "outside_last_hop_dst_other_rejected", "outside_transit_dst_local_rejected", "inside_first_hop_src_other_rejected",
 		"inside_dst_local_rejected", "inside_transit_wrong_sibling_rejected", "inside_transit_internal_link_rejected", "inside_transit_owning_sibling_accepted", "inside_first_hop_accepted")
 	rapid.Check(t, func(rt *rapid.T) {
 		var fail string
@@ -59,7 +59,9 @@ func TestC05(t *testing.T) {
 			case "ext":
 				ings = []ing{{"ext", l.dp.Interface(k.inIf)}}
 			case "host":
-				ings = []ing{{"internal", l.dp.Interface(0)}}
+				// a first-hop packet normally comes from a host; handed over by a sibling router it is still "from
+				// inside the AS, on its first hop" (only the rejections are asserted for that row)
+				ings = []ing{{"internal", l.dp.Interface(0)}, {"sibling_first_hop", l.dp.Interface(13)}}
 			case "sib":
 				other := uint16(14) // owned by the third router
 				if labIfByID(k.inIf).owner == 3 {
@@ -137,6 +139,9 @@ func TestC05(t *testing.T) {
 						}
 						r := l.injectOn(in.link, remote, raw)
 						desc := fmt.Sprintf("%v | src=%s dst=%s ingress=%s", k, src, dst, in.name)
+						if accept && in.name == "sibling_first_hop" {
+							continue
+						}
 						if accept {
 							if r.res.Disposition != router.VerifDispForward {
 								fail = fmt.Sprintf("packet the statement accepts (%s) was not forwarded (disposition %d, SCMP code %d): %s", why, r.res.Disposition, r.res.SPCode, desc)
@@ -167,8 +172,35 @@ func TestC05(t *testing.T) {
 								}
 							}
 						}
-						rows = append(rows, row{canon: fmt.Sprintf("%x|%s", raw[:60], in.name), nt: !accept || in.name == "owning_sibling", labels: []string{why, "arrival_" + k.arrival}})
+						rows = append(rows, row{canon: fmt.Sprintf("%x|%s", raw[:60], in.name), nt: !accept || in.name == "owning_sibling", labels: append([]string{why, "arrival_" + k.arrival}, map[bool][]string{true: {"first_hop_over_sibling_link_rejected"}}[in.name == "sibling_first_hop"]...)})
 					}
+				}
+			}
+			// A packet from the internal network, not on its first hop, whose path names no ingress interface
+			// at all for this AS (interface 0): no sibling router owns that, the packet claims to be in
+			// transit without having entered anywhere. Whatever its source, it is not forwarded.
+			if k.arrival == "sib" && !first {
+				h, sg := k.h, k.segOf(k.h)
+				if h > 0 && k.segOf(h-1) != sg && !k.peering {
+					// first hop after a segment change: the ingress interface is that of the previous hop field
+					setSides(&k.hops[h-1], k.consdir[sg-1], 0, 0)
+				} else {
+					setSides(&k.hops[h], k.consdir[sg], 0, k.outIf)
+				}
+				k.remac(l.key, rapid.Uint16().Draw(rt, "zb1"), rapid.Uint16().Draw(rt, "zb2"))
+				for _, src := range srcs {
+					k.srcIA, k.dstIA = src, labNeighbor(901)
+					raw, err := k.serialize()
+					if err != nil {
+						fail = "harness: " + err.Error()
+						return
+					}
+					r := l.injectOn(l.dp.Interface(0), l.hostAddr(k), raw)
+					if r.res.Disposition == router.VerifDispForward {
+						fail = fmt.Sprintf("packet from the internal network, not on its first hop (hop %d), whose path gives ingress interface 0 for this AS, source %s: forwarded through interface %d: %v", k.h, src, r.res.Egress, k)
+						return
+					}
+					rows = append(rows, row{canon: fmt.Sprintf("%x|zero", raw[:60]), nt: true, labels: []string{"inside_transit_without_ingress_interface_rejected", "arrival_" + k.arrival}})
 				}
 			}
 			rec.Sample(func() any {
